@@ -968,7 +968,7 @@ struct RawForeign {
 
 fn foreign_did(raw: &RawForeign, self_net: usize, self_tag: &[u8; 32], self_did: &str) -> String {
   let other_net = if raw.net == self_net { (raw.net + 1) % NETWORKS.len() } else { raw.net };
-  match raw.kind % 10 {
+  match raw.kind % 12 {
     0 => iota_did(NETWORKS[self_net], &raw.tag),   // other tag, same network
     1 => iota_did(NETWORKS[other_net], self_tag),  // same tag, other network
     2 => iota_did(NETWORKS[other_net], &raw.tag),  // other tag, other network
@@ -978,6 +978,21 @@ fn foreign_did(raw: &RawForeign, self_net: usize, self_tag: &[u8; 32], self_did:
     6 => format!("{self_did}{}", &raw.word[..1]),  // self DID as a proper prefix (not an IOTA DID any more)
     7 => "did:key:z6MkiTBz1ymuepAQ4HEHYSF1H8quG5GLVVQR3djdX3mDooWp".to_string(),
     8 => format!("did:iota:{}:{}", raw.word, &self_did["did:iota:".len()..]), // self id nested deeper
+    // another spelling of the self DID (explicit default network / upper-case hex): a different string, hence a
+    // foreign identifier that must come back untouched, although it normalises to the self DID
+    10 | 11 => {
+      let hex: String = self_tag.iter().map(|b| format!("{b:02X}")).collect();
+      let has_letters = hex.bytes().any(|b| b.is_ascii_alphabetic());
+      match NETWORKS[self_net] {
+        // an all-digit tag has no second spelling by case: fall back to an ordinary foreign DID
+        Some(_) if !has_letters => iota_did(NETWORKS[self_net], &raw.tag),
+        None if raw.kind % 12 == 11 && !has_letters => iota_did(NETWORKS[self_net], &raw.tag),
+        // default network: spelled out explicitly, or with upper-case hex digits
+        None if raw.kind % 12 == 10 => format!("did:iota:iota:0x{}", hex.to_lowercase()),
+        None => format!("did:iota:0x{hex}"),
+        Some(net) => format!("did:iota:{net}:0x{hex}"),
+      }
+    }
     _ => format!("did:jwk:{}", crate::util::b64url(raw.word.as_bytes())),
   }
 }
